@@ -81,7 +81,7 @@ pub fn boundary_values() -> Vec<Variant> {
     v
 }
 
-fn code_of_lint(e: &rusty_linter::core::LintError) -> i128 {
+pub fn code_of_lint(e: &rusty_linter::core::LintError) -> i128 {
     use rusty_linter::core::LintError::*;
     match e {
         Overflow => 6,
